@@ -158,7 +158,7 @@ PLANS["C19"] = {
 }
 PLANS["C01"] = {
     "level": "model_checking",
-    "verus": ["u123"],
+    "verus": ["u123", "u4"],
     "kani": {"quick": ["u5::is_operator_binary_all", "u4::unary_apply", "u4::flatop_apply", "u4::unary_append_after", "u4::unary_remove_latest", "u4::unary_append_iter",
                        "u6::flat_perm_desc_3", "u6::flat_ltr_3", "u6::flat_last_3", "u6::deep_perm_desc_3", "u6::deep_ltr_3"],
              "thorough": ["u5::is_operator_binary_all", "u4::unary_apply", "u4::flatop_apply", "u4::unary_append_after", "u4::unary_remove_latest", "u4::unary_append_iter",
@@ -172,11 +172,17 @@ PLANS["C01"] = {
     "assumptions": [A_VERUS, A_CBMC, A_FMT, A_NOOVF],
     "not_covered": ["tokenisation, depth-scaled priorities and WHICH operator a parenthesised unary function is attached to (make_expression)",
                     "constant folding (C02)", "constants standing for their values (tokenizer)"],
-    "bounds": {"quick": ["reduction kernel (Verus): unbounded", "sign rule: complete finite domain", "unary composition: chains of length 0..=4",
+    "bounds": {"quick": ["reduction kernel (Verus): unbounded", "unary composition UnaryOp::apply / remove_latest / FlatOp::apply (Verus unit u4): unbounded, all chain lengths",
+                         "sign rule: complete finite domain", "append_after / append_after_iter: small concrete chains (Kani) + long chains (sampled native probe)",
                          "application order: 3 operators from a symbolic 3-entry table, priorities 0..=99, depth 0..=2"],
                "thorough": ["as quick, application order with 4 operators"]},
     "explanation": "Partial: decided are (a) the reduction of an operand array under a given order (Verus, all sizes), (b) the order function (bounded), (c) unary composition (bounded), (d) the unary/binary role of signs (complete).",
 }
+PLANS["C01"]["cex_map"] = dict(PLANS["C14"]["cex_map"], **{"unaryop_apply": ["u4::unary_apply"], "UnaryOp<T>::remove_latest": ["u4::unary_remove_latest"],
+                                                            "UnaryOp<T>::len": ["u4::unary_apply"], "FlatOp<T>::apply": ["u4::flatop_apply"]})
+PLANS["C01"]["trusted_base"] = PLANS["C01"]["trusted_base"] + [
+    "unit u4: opaque stand-ins UnaryFuncWithIdx<T> / BinOpWithIdx<T> whose `apply` is an uninterpreted deterministic function (the real bodies are one-line calls through a fn pointer); one external_body delegation `UnaryOp::apply { unaryop_apply(self, x) }` (Verus quirk, R5) carrying the same contract text as the hoisted function",
+]
 PLANS["C01"]["native_probes"] = {t: [("u6::flat_perm_desc_40", 30000), ("u6::flat_ltr_40", 30000), ("u6::deep_ltr_40", 30000), ("u4::unary_append_big", 30000)] for t in ("quick", "thorough")}
 PLANS["C01"]["bounds"]["quick"].append("sampled native probes (not proofs): order functions with 40 operators, unary chains of 15..=20 functions, 30000 palette inputs each")
 PLANS["C13"] = {
